@@ -1,13 +1,81 @@
-(* C11/Proofs.v — lemmas behind C11/Properties.v (the bulk is in Scale/*Proofs.v). *)
+(* C11/Proofs.v — lemmas behind C11/Properties.v (the bulk is in Scale/*Proofs.v, RoundTrip.v). *)
 From Common Require Import Bytes Outcome.
-From Scale Require Import Compact CompactProofs Types Spec Codec FieldOrder.
+From Scale Require Import Compact CompactProofs Types Spec Codec FieldOrder EncodeProofs MonadLemmas RoundTrip.
 From C11 Require Import Model.
 Local Open Scope N_scope.
 
+Lemma succeeds_res {A} (x : M A) a : succeeds x a -> fst (x 0) = Ok a.
+Proof. intro H. destruct (H 0) as [m' E]. now rewrite E. Qed.
+
+(* round trip on the current tree, outside the guard of finding uint-5to7 *)
+Lemma roundtrip_current t v r :
+  wf_ty t = true -> has_type v t = true -> has_uint57 t v = false ->
+  decode_res current t (encode t v ++ r) = Ok (v, r).
+Proof.
+  intros W H G. unfold decode_res, run_decode. apply succeeds_res.
+  apply (decode_encode current eq_refl); [assumption|assumption|now right].
+Qed.
+
+(* round trip for a decodeUint that also takes the 5..7-byte mode: no exception *)
+Lemma roundtrip_ideal t v r :
+  wf_ty t = true -> has_type v t = true ->
+  decode_res ideal t (encode t v ++ r) = Ok (v, r).
+Proof.
+  intros W H. unfold decode_res, run_decode. apply succeeds_res.
+  apply (decode_encode ideal eq_refl); [assumption|assumption|now left].
+Qed.
+
 (* the pinned/current decodeUint rejects the 5-byte big mode encodeUint emits *)
 Lemma uint57_witness :
-  has_type (VN 4294967296) TUint = true /\
+  wf_ty TUint = true /\ has_type (VN 4294967296) TUint = true /\
   encode TUint (VN 4294967296) = spec_encode TUint (VN 4294967296) /\
   decode_res current TUint (encode TUint (VN 4294967296)) = Err 1%nat /\
-  decode_res ideal TUint (encode TUint (VN 4294967296)) = Ok (VN 4294967296, []).
+  has_uint57 TUint (VN 4294967296) = true.
 Proof. vm_compute. repeat split; reflexivity. Qed.
+
+(* Marshal of a nil pointer to a varying data type: the pinned marshal() calls IndexValue through
+   the nil pointer and panics; modelled as a separately named pre-fix encoder *)
+Fixpoint nil_enum_option (t : ty) (v : value) {struct v} : bool :=
+  match v, t with
+  | VNone, TOption (TEnum _) => true
+  | VSome v', TOption t' => nil_enum_option t' v'
+  | VOk v', TResult a _ => nil_enum_option a v'
+  | VErr v', TResult _ b => nil_enum_option b v'
+  | VEnum i v', TEnum alts => match alt_lookup alts i with Some t' => nil_enum_option t' v' | None => false end
+  | VList vs, TArray _ t' => nil_enum_option_all t' vs
+  | VList vs, TSlice t' => nil_enum_option_all t' vs
+  | VList vs, TStruct fs => nil_enum_option_fields fs vs
+  | VMap kvs, TMap kt vt => nil_enum_option_kvs vt kvs
+  | _, _ => false
+  end
+with nil_enum_option_all (t : ty) (vs : vals) {struct vs} : bool :=
+  match vs with VNil => false | VCons v r => nil_enum_option t v || nil_enum_option_all t r end
+with nil_enum_option_fields (fs : tys) (vs : vals) {struct vs} : bool :=
+  match vs, fs with
+  | VCons v r, TCons _ t fr => nil_enum_option t v || nil_enum_option_fields fr r
+  | _, _ => false
+  end
+with nil_enum_option_kvs (vt : ty) (kvs : kvals) {struct kvs} : bool :=
+  match kvs with KNil => false | KCons _ v r => nil_enum_option vt v || nil_enum_option_kvs vt r end.
+
+Definition encode_prefix (t : ty) (v : value) : outcome (list byte) :=
+  if nil_enum_option t v then Panic else Ok (encode t v).
+
+Lemma encode_prefix_witness :
+  let t := TOption (TEnum (TCons (Some 0) TU8 TNil)) in
+  wf_ty t = true /\ has_type VNone t = true /\ encode_prefix t VNone = Panic /\ spec_encode t VNone = [Byte.x00].
+Proof. vm_compute. repeat split; reflexivity. Qed.
+
+Lemma roundtrip_refuted : exists t v,
+  wf_ty t = true /\ has_type v t = true /\ decode_res current t (encode t v) <> Ok (v, []).
+Proof.
+  exists TUint, (VN 4294967296). destruct uint57_witness as (W & H & _ & E & _).
+  split; [exact W|]. split; [exact H|]. rewrite E. discriminate.
+Qed.
+
+Lemma encode_prefix_refuted : exists t v,
+  wf_ty t = true /\ has_type v t = true /\ encode_prefix t v = Panic.
+Proof.
+  exists (TOption (TEnum (TCons (Some 0) TU8 TNil))), VNone.
+  destruct encode_prefix_witness as (W & H & E & _). split; [exact W|]. split; [exact H|exact E].
+Qed.
